@@ -1,0 +1,123 @@
+//go:build verif
+
+package index
+
+import (
+	"sync/atomic"
+
+	v1 "github.com/lindb/lindb/index/v1"
+	"github.com/lindb/lindb/kv"
+)
+
+// Verification fault seam for property C09: ONE chosen step of (*metricIndexDatabase).Flush fails at its
+// kv family commit. Uses the package's own test seams (newInvertedIndexFlusher, newForwardIndexFlusher,
+// newIndexKVFlusher); without an armed fault the constructors behave like the original ones. What Flush
+// does after the failed step (return at once / go on with the remaining steps) is lindb's own control flow.
+
+// countdowns: the n-th flusher of the kind built from now on fails its Close() (0 or less = no fault armed)
+var (
+	verifInvertedFlushFault atomic.Int32
+	verifForwardFlushFault  atomic.Int32
+)
+
+type verifFaultyInvertedFlusher struct {
+	v1.InvertedIndexFlusher
+}
+
+// Close fails without committing anything (the kv flusher is released by the caller's defer).
+func (f *verifFaultyInvertedFlusher) Close() error { return verifFlushFault{} }
+
+type verifFaultyForwardFlusher struct {
+	v1.ForwardIndexFlusher
+}
+
+func (f *verifFaultyForwardFlusher) Close() error { return verifFlushFault{} }
+
+// verifCountdown reports whether this construction is the armed one.
+func verifCountdown(c *atomic.Int32) bool {
+	for {
+		left := c.Load()
+		if left <= 0 {
+			return false
+		}
+		if c.CompareAndSwap(left, left-1) {
+			return left == 1
+		}
+	}
+}
+
+// verifInstallIndexFlushSeams replaces the two constructors (idempotent; same behaviour while nothing is armed).
+func verifInstallIndexFlushSeams() {
+	newInvertedIndexFlusher = func(kvFlusher kv.Flusher) (v1.InvertedIndexFlusher, error) {
+		inner, err := v1.NewInvertedIndexFlusher(kvFlusher)
+		if err != nil {
+			return nil, err
+		}
+		if verifCountdown(&verifInvertedFlushFault) {
+			return &verifFaultyInvertedFlusher{InvertedIndexFlusher: inner}, nil
+		}
+		return inner, nil
+	}
+	newForwardIndexFlusher = func(kvFlusher kv.Flusher) (v1.ForwardIndexFlusher, error) {
+		inner, err := v1.NewForwardIndexFlusher(kvFlusher)
+		if err != nil {
+			return nil, err
+		}
+		if verifCountdown(&verifForwardFlushFault) {
+			return &verifFaultyForwardFlusher{ForwardIndexFlusher: inner}, nil
+		}
+		return inner, nil
+	}
+}
+
+// VerifFailIndexFlushStep arms one fault for the next Flush() of db: step (0 = metric->series postings,
+// 1 = forward, 2 = inverted, 3 = series dictionary; the source order of Flush) fails at its kv family
+// commit. A step that has nothing to write now cannot fail: then nothing is armed and false is returned.
+// Call VerifClearIndexFlushFault() when the Flush has returned.
+func VerifFailIndexFlushStep(db MetricIndexDatabase, step int) bool {
+	index := db.(*metricIndexDatabase)
+	verifInstallIndexFlushSeams()
+	VerifClearIndexFlushFault()
+	switch step {
+	case 0:
+		if !index.metricInverted.needFlush() {
+			return false
+		}
+		verifInvertedFlushFault.Store(1)
+	case 1:
+		if !index.forward.needFlush() {
+			return false
+		}
+		verifForwardFlushFault.Store(1)
+	case 2:
+		if !index.inverted.needFlush() {
+			return false
+		}
+		// the postings step builds an inverted-index flusher of its own before this one, when it writes
+		n := int32(1)
+		if index.metricInverted.needFlush() {
+			n = 2
+		}
+		verifInvertedFlushFault.Store(n)
+	case 3:
+		s, ok := index.series.(*indexKVStore)
+		if !ok || !s.needFlush() {
+			return false
+		}
+		VerifFailNextKVFlush(1)
+	default:
+		return false
+	}
+	return true
+}
+
+// VerifClearIndexFlushFault disarms whatever VerifFailIndexFlushStep armed and was not used.
+func VerifClearIndexFlushFault() {
+	verifInvertedFlushFault.Store(0)
+	verifForwardFlushFault.Store(0)
+	if newIndexKVFlusherArmed() {
+		VerifFailNextKVFlush(0)
+	}
+}
+
+func newIndexKVFlusherArmed() bool { return verifKVFlushFaults.Load() > 0 }
